@@ -184,7 +184,7 @@ def r3(ctx, rep):
 
 
 def r4(ctx, rep):
-    rep.rule("C08.R4", "floats stay floats and finite", floor=2)
+    rep.rule("C08.R4", "floats stay floats, finite and non-zero when written non-zero", floor=3)
     syn = ctx.syn
     f = syn.fn("gen_expr::translate_literal", crate="prqlc")
     m = tables.first_match(f, "l")
@@ -199,6 +199,32 @@ def r4(ctx, rep):
     guarded = conds is not None and bool(conds[0] & {".is_finite()", ".is_infinite()", ".is_nan()"})
     rep.check(guarded, "finite-guard", "`num_str.parse::<f64>()` returns Ok(inf) for out-of-range decimals (1e999) and the lexer wraps it in Literal::Float without an is_finite test: "
               "the SQL text is `inf` and the formatter prints `inf`", file=nf["file"], line=nf["l"], fn=nf["path"])
+
+
+    # .. and non-zero: a literal below the smallest subnormal parses to Ok(0.0); Literal::Float must also depend on a comparison of the parsed value
+    # with zero (paired with a test of the written mantissa, so that `0.0` itself stays legal)
+    zero_test = conds is not None and re.search(r"[!=]= ?-?0(\.0)?\b|\b0(\.0)? ?[!=]=|is_normal\(\)|classify\(\)", conds[1]) is not None
+    rep.check(zero_test, "underflow-guard", "`num_str.parse::<f64>()` returns Ok(0.0) for a literal too small for f64 (`1e-400`), and the lexer wraps it in Literal::Float: the literal denotes a non-zero "
+              "value and the SQL says 0.0 (while `1e309` is an error); Literal::Float must depend on the parsed value being non-zero unless the written mantissa is zero", file=nf["file"], line=nf["l"], fn=nf["path"])
+
+
+def r14(ctx, rep):
+    rep.rule("C08.R14", "a raw string ends at the quote character it started with", floor=1)
+    syn = ctx.syn
+    f = syn.fn("lexer::raw_string", crate="prqlc_parser")
+    # the two delimiter parsers admit both quote characters; the closure that builds the literal must compare the two characters it was given and
+    # fail when they differ (or the closing parser must be built from the opening character)
+    quotes = [n for n in walk(f["body"]) if n.get("k") == "call" and last_seg(show(n["f"])) == "choice" and sorted(lit_val(x["a"][0]) for x in walk(n) if x.get("k") == "call" and last_seg(show(x["f"])) == "just" and x["a"] and isinstance(lit_val(x["a"][0]), str)) == ['"', "'"]]
+    tied = False
+    for n in walk(f["body"]):
+        if n.get("k") == "closure" and any(x.get("k") == "path" and last_seg(x["p"]) == "RawString" for x in walk(n["body"])):
+            chars = [x["n"] for p_ in n["params"] for x in walk(p_) if x.get("k") == "p_ident"]
+            for c_ in walk(n["body"]):
+                if c_.get("k") == "bin" and c_["op"] in ("!=", "==") and show(c_["lhs"]).lstrip("*&") in chars and show(c_["rhs"]).lstrip("*&") in chars and show(c_["lhs"]) != show(c_["rhs"]):
+                    tied = any(x.get("k") == "path" and last_seg(x["p"]) == "Err" for x in walk(n["body"]))
+    one_sided = len(quotes) <= 1      # e.g. the closing delimiter derived from the opening one (`just(open)`), or a parser per quote character
+    rep.check(tied or one_sided, "raw-string:closing-is-opening", "lexer::raw_string accepts either quote character as the opening and as the closing delimiter without tying them: "
+              "`r'p\" + r\"q'` lexes as the raw strings `p` and `q` (and `r\"abc'` is a complete literal)", file=f["file"], line=f["l"], fn=f["path"])
 
 
 def r5(ctx, rep):
@@ -590,5 +616,5 @@ def r13(ctx, rep):
 
 
 def run(ctx, rep):
-    for r in (r1, r2, r3, r4, r5, r6, r7, r8, r9, r10, r11, r12, r13):
+    for r in (r1, r2, r3, r4, r5, r6, r7, r8, r9, r10, r11, r12, r13, r14):
         rep.guard(r, ctx)
